@@ -156,7 +156,7 @@ def _sinus(a0, a1, amp, om, ph):
     return lambda T: a0 + a1 * T + amp * ((om * T + ph).sin())
 
 
-def make_traj(rng, family):
+def make_traj(rng, family, leg_az=None):
     """families: 'gc' constant-speed great-circle-like, 'helix' climbing turn, 'tumble' 3-axis tumbling."""
     lat0 = rng.choice([-1, 1]) * rng.uniform(0.0, 84.0)
     lon0 = rng.uniform(-179, 179)
@@ -199,7 +199,7 @@ def make_traj(rng, family):
         # long, fast, mostly north-south (or diagonal) leg: tens of minutes at ~290 m/s, several degrees of latitude
         speed = rng.uniform(250, 295)
         lat0 = rng.choice([-1, 1]) * rng.uniform(25, 60)
-        az = rng.choice([0.0, math.pi, math.pi / 4, 5 * math.pi / 4]) + rng.uniform(-0.15, 0.15)
+        az = (rng.choice([0.0, math.pi, math.pi / 4, 5 * math.pi / 4]) if leg_az is None else leg_az) + rng.uniform(-0.15, 0.15)
         coslat = math.cos(lat0 * D2R)
         latr = speed * math.cos(az) / rm / D2R
         lonr = speed * math.sin(az) / (rm * coslat) / D2R
@@ -431,7 +431,9 @@ def leg_case(seed, k, dt=0.1, total=LEG_TOTAL):
     'initial position + velocity' form: the returned position must be the motion that has the given velocity
     (analytic position, velocity from it by the independent WGS-84 kinematics), and the readings must agree
     with the position+velocity form and with the closed-form specific force."""
-    traj = make_traj(_case_rng(seed, 300000 + k), 'leg')
+    # even k: north / south legs, odd k: diagonal legs
+    base = [0.0, math.pi / 4, math.pi, 5 * math.pi / 4][k % 4]
+    traj = make_traj(_case_rng(seed, 300000 + k), 'leg', leg_az=base)
     time = np.arange(int(round(total / dt)) + 1) * dt
     tr = truth(traj, time, integrals=False)
     fails = []
